@@ -96,18 +96,39 @@ theorem slice_inclusive {ls : List α} {ix : Index α} (h : Index.mk? ls = .ok i
     subst h
     constructor
     · intro i j a b hi hj
-      simp only [Index.locToIloc, Index.locToIlocP, Index.locMap, Index.mapSliceArgs, Index.mapSliceArg,
+      simp only [Index.locToIloc, Index.locToIlocP, Index.locMap, Index.mapSliceArgs, Index.mapSliceArg, Index.mapSliceStop,
         Option.isSome_none, Option.isNone_some, Bool.false_eq_true, false_and, and_false, if_false]
       rw [AMap.get?_zipIdx_some 0 hn hi, AMap.get?_zipIdx_some 0 hn hj]
       simp [Except.map]
     · intro a b hab
-      simp only [Index.locToIloc, Index.locToIlocP, Index.locMap, Index.mapSliceArgs, Index.mapSliceArg,
+      simp only [Index.locToIloc, Index.locToIlocP, Index.locMap, Index.mapSliceArgs, Index.mapSliceArg, Index.mapSliceStop,
         Option.isSome_none, Option.isNone_some, Bool.false_eq_true, false_and, and_false, if_false]
       by_cases ha : a ∈ ls
       · have hb : b ∉ ls := by rcases hab with h | h; exact absurd ha h; exact h
         obtain ⟨i, hi⟩ := List.mem_iff_getElem?.mp ha
         rw [AMap.get?_zipIdx_some 0 hn hi, AMap.get?_zipIdx_none 0 hb]
       · rw [AMap.get?_zipIdx_none 0 ha]
+  · rw [if_neg hn] at h; cases h
+
+/-- A descending label slice (step -1) is stop-inclusive too: `slice(labels[i], labels[j], -1)` is
+    `slice(i, j-1, -1)`, with an open stop when the stop label is the first position (the repair of
+    finding F47, commit 51a0a39). -/
+theorem slice_inclusive_descending {ls : List α} {ix : Index α} (h : Index.mk? ls = .ok ix)
+    (i j : Nat) (a b : α) (hi : ls[i]? = some a) (hj : ls[j]? = some b) :
+    ix.locToIloc (.slice (some a) (some b) (some (-1))) =
+      .ok (.slice ⟨some i, if j = 0 then none else some ((j : Int) - 1), some (-1)⟩) := by
+  rw [Index.mk?_eq] at h
+  by_cases hn : ls.Nodup
+  · rw [if_pos hn] at h
+    simp only [Except.ok.injEq] at h
+    subst h
+    simp only [Index.locToIloc, Index.locToIlocP, Index.locMap, Index.mapSliceArgs, Index.mapSliceArg,
+      Index.mapSliceStop, Option.isSome_none, Option.isNone_some, Bool.false_eq_true, false_and, and_false, if_false]
+    rw [AMap.get?_zipIdx_some 0 hn hi, AMap.get?_zipIdx_some 0 hn hj]
+    by_cases hj0 : j = 0
+    · subst hj0; simp
+    · have : ¬ ((j : Int) - 1 < 0) := by omega
+      simp [hj0, this]
   · rw [if_neg hn] at h; cases h
 
 /-- Grow-only histories: for EVERY list of append/extend calls on a well-formed IndexGO (mapped or
